@@ -97,7 +97,8 @@ pub fn noisy_layout(r: &mut Rng, steps: &[StepSpec], comments: bool) -> (String,
         }
         if comments && r.chance(1, 4) {
             // a comment runs to the end of its line, however the line ends
-            out += &format!(" # comment {} | not a step = 1{}", i, r.pick(&["\n", "\n", "\r\n", "\r"]));
+            let body = *r.pick(&["not a step = 1", "not a step = 1 # nor this: x=9 | addone", "## y=2 # z=3", "#"]);
+            out += &format!(" # comment {} | {}{}", i, body, r.pick(&["\n", "\n", "\r\n", "\r"]));
         }
         // empty steps are insignificant
         if r.chance(1, 10) {
